@@ -78,12 +78,16 @@ class CpuGuard:
     def __enter__(self):
         self.fired = False
         self.old = signal.signal(signal.SIGVTALRM, self._h)
-        signal.setitimer(signal.ITIMER_VIRTUAL, self.seconds)
+        self.prev = signal.setitimer(signal.ITIMER_VIRTUAL, self.seconds)
         return self
 
     def __exit__(self, *a):
-        signal.setitimer(signal.ITIMER_VIRTUAL, 0)
+        left = signal.setitimer(signal.ITIMER_VIRTUAL, 0)
         signal.signal(signal.SIGVTALRM, self.old)
+        if self.prev and self.prev[0] > 0:
+            # nested guards: re-arm the enclosing one with what it had left
+            used = self.seconds - left[0]
+            signal.setitimer(signal.ITIMER_VIRTUAL, max(0.01, self.prev[0] - used))
         return False
 
 
